@@ -264,6 +264,11 @@ class Conc:
                 return self.eval(args[0], env, depth)
             if not args and "cv" in n:
                 return n["cv"]
+            if "cv" in n:
+                return n["cv"]
+            raise Unknown("value of a %s object" % (t or "class"))
+        if n.get("k") == "new":
+            raise Unknown("allocation")
         return self.eval(n, env, depth)
 
     # ------------------------------------------------------------------ calls
